@@ -95,7 +95,7 @@ def check(F, R):
             tab[v] = got
             if v in VERDICT:
                 R.ob("T-VERDICT", "%s:%s::%s" % (f["path"], ty.rsplit("::", 1)[-1], v), got == VERDICT[v], F.loc(f, m),
-                     "%s::%s is converted to SolverError::%s, expected SolverError::%s" % (ty, v, got, VERDICT[v]))
+                     "%s::%s is converted to SolverError::%s, expected SolverError::%s" % (ty, v, got, VERDICT[v]), undecided=not (h and produces_solver_error(h)))
             else:
                 R.ob("T-VERDICT", "%s:%s::%s" % (f["path"], ty.rsplit("::", 1)[-1], v), got not in ("Infeasible", "Unbounded"), F.loc(f, m),
                      "%s::%s (not a verdict) is converted to the verdict SolverError::%s" % (ty, v, got))
@@ -131,7 +131,7 @@ def check(F, R):
                                 if x.get("k") == "Path" and norm(x.get("path") or "") == SOLVER_ERROR + "::Unbounded":
                                     ok = True
                     R.ob("T-VERDICT", "clarabel:dual-infeasible->Unbounded", ok, F.loc(f, n), "DualInfeasible must be reported as SolverError::Unbounded")
-    R.ob("T-VERDICT", "clarabel:site", n_cl == 1, "packages/rooc/src/solvers/clarabel.rs", "clarabel status inspection site count %d" % n_cl)
+    R.ob("T-VERDICT", "clarabel:site", n_cl == 1, "packages/rooc/src/solvers/clarabel.rs", "clarabel status inspection site count %d" % n_cl, undecided=True)
     # infinite / NaN objective mapping in the real microlp path
     for f in F.fn_list:
         if "body" not in f or not f["path"].endswith("solve_real_lp_problem_micro_lp"):
@@ -146,8 +146,8 @@ def check(F, R):
                         for x in walk(arm["body"]):
                             if x.get("k") == "Path" and norm(x.get("path") or "").startswith(SOLVER_ERROR + "::"):
                                 guards[gt.split(".")[-1]] = x["path"].rsplit("::", 1)[-1]
-        R.ob("T-VERDICT", "microlp-real:inf->Unbounded", guards.get("is_infinite()") == "Unbounded", F.loc(f), "guards %s" % guards)
-        R.ob("T-VERDICT", "microlp-real:nan->Infeasible", guards.get("is_nan()") == "Infeasible", F.loc(f), "guards %s" % guards)
+        R.ob("T-VERDICT", "microlp-real:inf->Unbounded", guards.get("is_infinite()") == "Unbounded", F.loc(f), "guards %s" % guards, undecided="is_infinite()" not in guards)
+        R.ob("T-VERDICT", "microlp-real:nan->Infeasible", guards.get("is_nan()") == "Infeasible", F.loc(f), "guards %s" % guards, undecided="is_nan()" not in guards)
     # who may construct the simplex verdicts
     producers(F, R)
 
@@ -167,7 +167,7 @@ def producers(F, R):
                 if n.get("k") in ("Path", "Call") and norm(n.get("path") or n.get("callee") or "") == path and n.get("k") != "PPath":
                     # exclude pattern positions: Path nodes in patterns have kind PPath already
                     sites.append((f, n))
-        R.ob("W-PRODUCER", "%s:single-producer" % name, len(sites) == 1, F.loc(*sites[0]) if sites else "", "%d construction site(s) of %s" % (len(sites), path))
+        R.ob("W-PRODUCER", "%s:single-producer" % name, len(sites) == 1, F.loc(*sites[0]) if sites else "", "%d construction site(s) of %s" % (len(sites), path), undecided=True)
         for f, n in sites:
             R.fn(f["path"])
             cond = None
@@ -188,6 +188,6 @@ def producers(F, R):
                             cond = {"k": "Lit", "v": "match %s : %s arm %s" % (sctxt, F.ty(i["scrut"]), sexp(arm["pat"]))}
             ctxt = sexp(cond) if cond else "unconditional"
             if guard:
-                R.ob("W-PRODUCER", "%s:guard" % name, guard in ctxt and "0.0" in ctxt, F.loc(f, n), "infeasibility must be declared only when the phase-1 optimum differs from 0: guard is `%s`" % ctxt[:120])
+                R.ob("W-PRODUCER", "%s:guard" % name, guard in ctxt and "0.0" in ctxt, F.loc(f, n), "infeasibility must be declared only when the phase-1 optimum differs from 0: guard is `%s`" % ctxt[:120], undecided=True)
             else:
-                R.ob("W-PRODUCER", "%s:guard" % name, ctxt.endswith("arm Option::None") and "Option<(usize, f64)>" in ctxt, F.loc(f, n), "unboundedness must be declared only when no leaving row exists: producer context `%s`" % ctxt[:120])
+                R.ob("W-PRODUCER", "%s:guard" % name, ctxt.endswith("arm Option::None") and "Option<(usize, f64)>" in ctxt, F.loc(f, n), "unboundedness must be declared only when no leaving row exists: producer context `%s`" % ctxt[:120], undecided=True)
